@@ -186,7 +186,7 @@ def rule_rename_plumbing(repo: Repo, rep: Report, rule: str) -> None:
         if fn is None:
             raise AnalysisError(f"anchor vanished: {fname}")
         txt = full(fn.node)
-        if f".Meta.{meta}" not in txt and f"'{meta}'" not in txt:
+        if (f".Meta.{meta}" not in txt and f"'{meta}'" not in txt) or not any((dotted(c.func) or "").split(".")[-1] == "override" for c in calls_in(fn.node)):
             # the per-field work may have moved into helpers of the module (possibly passed around as function values):
             # look at the function with its direct helpers inlined, and read the Meta access from every module function it mentions
             from sa.flatten import flatten as _flr
